@@ -40,6 +40,10 @@ BANNED_CALL = [
 # judged by C10/C20 (guard discipline, ownership of the graph)
 ALLOW_IN = {
     'sync global / lock': r'^(<)?util::sync::',
+    # reading the input is what the decoding entry points are for (the property is about calculations on a decoded map); a reimplementation of
+    # rosu_map::from_path inside Beatmap::from_path opens the file itself.  One symbol each, plus the private reader helper they share.
+    'filesystem': r'^model::beatmap::Beatmap::from_path$',
+    'io': r'^model::beatmap::Beatmap::(from_path|from_bytes|from_reader)$',
 }
 
 BANNED_TYPES = [
